@@ -221,7 +221,7 @@ impl Prop for C04 {
         }
         if stage >= 2 {
             for i in a..b {
-                out.idx = Some(i);
+                out.at(i);
                 let what = odd_registration(i);
                 out.sample(what.clone());
                 let stage_name = format!("{}[{}]", name, what);
@@ -235,7 +235,7 @@ impl Prop for C04 {
             return;
         }
         for i in a..b {
-            out.idx = Some(i);
+            out.at(i);
             let c = &cs[i as usize];
             run_case(c, &world, name, out);
             out.nontrivial.insert(hash64(&c.key));
